@@ -32,6 +32,10 @@ type vpConn struct {
 	segment  bool // symbolic segmentation: each Read returns 1..min(len(p), remaining) bytes
 	cut      int  // the stream ends (EOF) or stalls (timeout) at this offset; -1 = no cut
 	cutStall bool
+	resume   bool // after one timeout at the cut the stream goes on (a slow client)
+	stalled  bool
+	timeouts int
+	readsAfterTimeout int
 	reads    int
 	maxReads int
 	out      [][]byte
@@ -68,15 +72,20 @@ func (c *vpConn) Read(p []byte) (int, error) {
 		c.readsUnarmed++ // no finite deadline is in force for this read
 	}
 	c.log.add("read")
+	if c.timeouts > 0 {
+		c.readsAfterTimeout++
+	}
 	if c.hook != nil {
 		c.hook()
 	}
 	end := len(c.in)
-	if c.cut >= 0 && c.cut < end {
+	if c.cut >= 0 && c.cut < end && !(c.resume && c.stalled) {
 		end = c.cut
 	}
 	if c.pos >= end {
 		if c.cut >= 0 && c.cutStall {
+			c.stalled = true
+			c.timeouts++
 			return 0, vpTimeoutErr{}
 		}
 		return 0, io.EOF
